@@ -5,6 +5,13 @@
     zfc <preludehex> <inputhex> <chunk>            C24 verdict: `ok` / `bad:<why>` / `panic` (spec: `ok`)
     zfp <preludehex> <inputhex> <chunk> <expected> C23: items; spec = `<expected>` (the record list
                                                    the harness's pretty-printer rendered)
+    zfw <preludehex> <inputhex> <chunk> <expected> C23, group `zonewks` (files holding IN WKS records
+                                                   with ports): `ok same <items>` if the items are the
+                                                   expected ones, `ok wks-bits-reversed <items>` if they
+                                                   become the expected ones once every bit-map octet of
+                                                   every IN WKS record has its bits reversed (known
+                                                   finding D18), else `ok differs <items>`;
+                                                   spec = `ok same <expected>`
     zfv <preludehex> <inputhex> <chunk>            informational: the kind of the final error
     zf.u32|u16|u8|ipv4|ipv6|class|type|utf8 <hex>  the std / FromStr text parsers (model ↔ impl)
 
@@ -19,6 +26,7 @@
 -/
 import QV.Driver.Util
 import QV.Model.ZoneFile.Parser
+import QV.Spec.ZoneFile
 
 namespace QV.Driver
 open QV QV.ZF
@@ -70,6 +78,33 @@ def verdict (ys : List Yield) : String :=
   | some "panic" => "panic"
   | some s => s
 
+/-- every bit-map octet of an IN WKS record with its bits in the opposite order -/
+def revWks : Yield → Yield
+  | .item (.record line r) =>
+    if r.cls == 1 && r.ty == 11 then
+      .item (.record line { r with rdata := r.rdata.take 5 ++ (r.rdata.drop 5).map Spec.ZF.revBits })
+    else .item (.record line r)
+  | y => y
+
+def showYield : Yield → String
+  | .item i => showItem i
+  | .err e => s!"err@{e.line}"
+  | .panic => "panic"
+
+/-- the `zfw` verdict of a yield list against the expected items: item by item equal, or equal
+    once the bit-map octets of an IN WKS record are bit-reversed -/
+def wksVerdict (ys : List Yield) (expected : String) : String :=
+  if ys.any (fun y => y == .panic) then "panic"
+  else
+    let a := ys.map showYield
+    let r := (ys.map revWks).map showYield
+    let e := if expected == "-" then [] else expected.splitOn ";"
+    let body := if a.isEmpty then "-" else ";".intercalate a
+    if a == e then "ok same " ++ body
+    else if a.length == e.length && ((a.zip r).zip e).all (fun p => p.1.1 == p.2 || p.1.2 == p.2) then
+      "ok wks-bits-reversed " ++ body
+    else "ok differs " ++ body
+
 def finalKind (ys : List Yield) : String :=
   match ys.getLast? with
   | some (.err e) => "err:" ++ (toString (repr e.kind)).replace "QV.ZF.Kind." ""
@@ -108,6 +143,10 @@ def zonefileHandler : Handler := fun op args =>
   | "zfp", [pre, inp, ch, expected] =>
     match unhex pre, unhex inp, chunkArg ch with
     | some p, some i, some ro => some (showYields (runZf p.toList i.toList ro), "ok " ++ expected)
+    | _, _, _ => some bad
+  | "zfw", [pre, inp, ch, expected] =>
+    match unhex pre, unhex inp, chunkArg ch with
+    | some p, some i, some ro => some (wksVerdict (runZf p.toList i.toList ro) expected, "ok same " ++ expected)
     | _, _, _ => some bad
   | "zfv", [pre, inp, ch] =>
     match unhex pre, unhex inp, chunkArg ch with
